@@ -1,34 +1,47 @@
 ----------------------------- MODULE SoyDataPairs -----------------------------
 (***************************************************************************)
-(* M1 for C20, value laws on ALL PAIRS of Soy values that conversions of   *)
-(* depth <= 1 produce: equality is symmetric, numeric across int/float,    *)
-(* never holds across kinds, NaN equals nothing; equal values have the     *)
-(* same truthiness and the same text; the truthiness table; text does not  *)
-(* depend on map iteration order.                                          *)
+(* C20, value laws on ALL PAIRS.  pg is a sequence of abstract Go values   *)
+(* of depth <= 1 (SoyData!PairSource), vv[j] the Soy value the default     *)
+(* conversion of pg[j] yields; one initial state per row i.                *)
+(*                                                                         *)
+(* M1: for every j the pair (vv[i], vv[j]) satisfies the pair laws         *)
+(* (equality symmetric, numeric across int/float, never across kinds, NaN  *)
+(* equal to nothing; equal values have the same truthiness and text); the  *)
+(* truthiness table; text does not depend on map iteration order.          *)
+(*                                                                         *)
+(* M2: Emit prints row i: the descriptor pg[i], the value, its truthiness  *)
+(* and text, and eq, where eq[j] = "t" / "f" / "u" is what                 *)
+(* vv[i].Equals(vv[j]) must return ("u": no claim beyond symmetry).  The   *)
+(* harness builds the real Go values, converts each ONCE and pushes all    *)
+(* pairs of real results through Equals.  i = j is the same instance: a    *)
+(* list or map equals itself.                                              *)
 (***************************************************************************)
 EXTENDS SoyData, Json
 
-\* KEEP FIRST.  TLC compares two records field by field in the order in
-\* which the field NAMES were first seen (interned), and stops at the first
-\* difference; comparing a boolean v with an integer v is an error.  The tag
-\* fields g and t must therefore be seen before any other field name of this
-\* root module (e.g. an identifier v), so that tags are compared first.
+\* KEEP FIRST (see SoyDataMC): tag fields must be interned first.
 TagsFirst == [g |-> "g", t |-> "t"]
 
-CONSTANT Size
+CONSTANTS Size, Part, NParts     \* this run covers the rows i with i % NParts = Part
 
-\* One state per value a; vp (the pool) is kept in the state because TLC
-\* re-evaluates a definition at every use; each invariant quantifies over
-\* the second value b, so every ordered pair is checked.
-VARIABLES a, vp
+\* pg and vv are constants of the run kept in the state: TLC re-evaluates a
+\* definition at every use, a state variable is evaluated once.
+VARIABLES i, pg, vv
 
-Init == vp = ValuePool(Size) /\ a \in vp
-Next == UNCHANGED <<a, vp>>
+Init == /\ pg = SetToSeq(PairSource(Size))
+        /\ vv = [j \in 1..Len(pg) |-> Convert(pg[j], DefaultOpts, Rd0)]
+        /\ i \in {j \in 1..Len(pg) : j % NParts = Part}
+Next == UNCHANGED <<i, pg, vv>>
 
-Cex(law, b) == PrintT("CEX " \o ToJson([law |-> law, a |-> a, b |-> b]))
-Check(law, b, ok) == ok \/ ~Cex(law, b)
+Cex(law, j) == PrintT("CEX " \o ToJson([law |-> law, a |-> vv[i], b |-> vv[j]]))
+Check(law, j, ok) == ok \/ ~Cex(law, j)
 
-InvPairs  == \A b \in vp : Check("InvPairs", b, PairLaws(a, b))
-InvTruth  == Check("InvTruth", a, TruthTableLaw(a))
-InvTextFn == Check("InvTextFn", a, TextFunctionLaw(a))
+InvPairs  == \A j \in 1..Len(pg) : Check("InvPairs", j, PairLaws(vv[i], vv[j]))
+InvTruth  == Check("InvTruth", i, TruthTableLaw(vv[i]))
+InvTextFn == Check("InvTextFn", i, TextFunctionLaw(vv[i]))
+
+Eq(j, k) == IF j = k /\ vv[j].t \in {"list", "map"} THEN "t" ELSE EqualsD(vv[j], vv[k])
+
+Emit == PrintT(ToJson([i |-> i, n |-> Len(pg), g |-> pg[i], v |-> vv[i], truthy |-> TruthyD(vv[i]),
+                       text |-> IF PrintableD(vv[i]) THEN [ok |-> TRUE, s |-> TextD(vv[i], TRUE)] ELSE [ok |-> FALSE],
+                       eq |-> [k \in 1..Len(pg) |-> Eq(i, k)]]))
 =============================================================================
